@@ -31,6 +31,7 @@ type cWorld struct {
 	rolesIdx      boltz.SetReadIndex
 	lp, ll        boltz.LinkCollection
 	qB, qA        ast.Query
+	qDot          ast.Query
 	qBplain       ast.Query
 	qAplain       ast.Query
 	lite          bool // fewer scheduling points inside readTuple (no in-scan yields)
@@ -56,7 +57,14 @@ func newCWorld() *cWorld {
 		vsync.Yield("scan-row:" + id)
 		return true
 	}))
+	w.places.AddEntitySymbol(boltz.NewStringFuncSymbol(w.places, "ptag", func(id string) *string {
+		vsync.Yield("scan-element:" + id)
+		return &id
+	}))
 	var err error
+	if w.qDot, err = ast.Parse(w.items, `anyOf(places.ptag) = "l2" or allOf(places.label) = "zz"`); err != nil {
+		panic(err)
+	}
 	if w.qB, err = ast.Parse(w.items, `hook and anyOf(roles) = "b"`); err != nil {
 		panic(err)
 	}
@@ -341,6 +349,64 @@ func C18(tier string) int {
 		rep.Capped(fmt.Sprintf("isolation: execution cap %d hit", ex.MaxExecs))
 	}
 
+	// ---- two readers evaluating a dotted (linked) set symbol with yields inside the set iteration:
+	// per-scan cursor state must not be shared between transactions
+	{
+		path := dir + "/dot.db"
+		if err := explore.CopyFile(base, path); err != nil {
+			panic(err)
+		}
+		ddb, err := boltz.Open(path, "root")
+		if err != nil {
+			panic(err)
+		}
+		if err := ddb.Update(nil, func(ctx boltz.MutateContext) error { return w.tx1(ctx, noYield) }); err != nil {
+			panic(err)
+		}
+		dotRead := func(tx *bbolt.Tx) string {
+			ids, count, err := w.items.QueryIdsC(tx, w.qDot)
+			return fmt.Sprintf("%v/%d/%v", ids, count, err)
+		}
+		var want string
+		_ = ddb.View(func(tx *bbolt.Tx) error { want = dotRead(tx); return nil })
+		got := make([]string, 2)
+		ex2 := &vsched.Explorer{Bound: bound, MaxSteps: 4000, MaxExecs: 100000}
+		ex2.KeyFn = func() string { return strings.Join(got, "|") }
+		ex2.Body = func() func() {
+			got[0], got[1] = "", ""
+			return func() {
+				for r := 0; r < 2; r++ {
+					r := r
+					vsync.Go0(func() {
+						_ = ddb.View(func(tx *bbolt.Tx) error { got[r] = dotRead(tx); return nil })
+					})
+				}
+			}
+		}
+		ex2.Check = func(x *vsched.Execution) {
+			rep.Count("transitions", int64(x.Steps))
+			replay := map[string]interface{}{"scenario": "two readers, dotted set symbol", "choices": x.Choices(), "schedule": x.Schedule()}
+			if x.Deadlock || len(x.Panics) > 0 || x.Hung != "" || x.Diverged != "" {
+				rep.Violation("C18|dotted-set-readers|abnormal", fmt.Sprintf("two readers: deadlock=%v panics=%v hung=%q diverged=%q", x.Deadlock, x.Panics, x.Hung, x.Diverged), replay)
+				return
+			}
+			for r := range got {
+				if got[r] != want {
+					rep.Violation("C18|dotted-set-readers|wrong-answer", fmt.Sprintf("reader %d evaluating %q concurrently with another reader got %s, serially %s", r, "anyOf(places.ptag) = \"l2\" or allOf(places.label) = \"zz\"", got[r], want), replay)
+					return
+				}
+			}
+			rep.Outcome("dotted-set-readers-agree")
+		}
+		ex2.Explore()
+		_ = ddb.Close()
+		rep.Count("states", int64(ex2.Executions))
+		rep.Set("schedules_dotted_set_readers", ex2.Executions)
+		if ex2.Capped {
+			rep.Capped("dotted-set readers: execution cap hit")
+		}
+	}
+
 	// ---- helpers under every schedule and pool answer
 	c18Helpers(rep, w, bound)
 
@@ -456,6 +522,15 @@ func RaceBodies() int {
 		var t string
 		_ = db.View(func(tx *bbolt.Tx) error {
 			ids, _, err := w.items.QueryIds(tx, `anyOf(roles) = "b" or name = "N1"`)
+			t = fmt.Sprint(ids, err)
+			return nil
+		})
+		return t
+	}
+	bodies["reader(dotted set symbol query)"] = func() string {
+		var t string
+		_ = db.View(func(tx *bbolt.Tx) error {
+			ids, _, err := w.items.QueryIds(tx, `anyOf(places.label) = "L" or anyOf(places.id) = "l2"`)
 			t = fmt.Sprint(ids, err)
 			return nil
 		})
